@@ -1,5 +1,5 @@
 PROP = {
-    "proof_files": ["Proofs/Tree.v", "Proofs/Recv.v", "Proofs/Send.v", "Proofs/Geometry.v", "Proofs/Dispatch.v", "Proofs/ResumeFile.v"],
+    "proof_files": ["Proofs/Tree.v", "Proofs/Recv.v", "Proofs/Send.v", "Proofs/Geometry.v", "Proofs/Dispatch.v", "Proofs/ResumeFile.v", "Proofs/TreeBytes.v"],
     "gen_files": ["Gen/Geometry.v", "Gen/C15.v"],
     "corr": ["C02"],
     "timeout": {"quick": 900, "thorough": 7200},
